@@ -5,7 +5,8 @@
    the relativization choices). *)
 From DV Require Import Base.Prelude Model.NameM Model.TokM Model.RdTextM.
 From DV Require Import Proofs.NameValid Proofs.NameText Proofs.TokEsc Proofs.TokTxt Proofs.TokWords
-     Proofs.TokDec Proofs.TokHex Proofs.TokShape Proofs.TokGeneric Proofs.TokUtf8 Proofs.RdTextName Proofs.RdTextAddr Proofs.RdTextBitmap Proofs.RdTextTypes Proofs.RdTextB32 Proofs.RdTextSig Proofs.RdTextEui Proofs.RdTextFmtHex Proofs.RdTextTail.
+     Proofs.TokDec Proofs.TokHex Proofs.TokShape Proofs.TokGeneric Proofs.TokUtf8 Proofs.RdTextName Proofs.RdTextAddr Proofs.RdTextBitmap Proofs.RdTextTypes Proofs.RdTextB32 Proofs.RdTextSig Proofs.RdTextEui Proofs.RdTextFmtHex Proofs.RdTextTail Proofs.RdTextGpos.
+From DV Require Model.SchemaM.
 Open Scope Z_scope.
 
 Definition is_rest (f : tfield) : bool :=
@@ -52,6 +53,7 @@ Definition val_ok (f : tfield) (v : tval) : Prop :=
   | FB64RestE, VBytes b => all_bytes b = true
   | FMac, VBytes b => all_bytes b = true /\ b <> [] /\ zlen b <= 65535
   | FOther, VBytes b => all_bytes b = true /\ zlen b <= 65535
+  | FGposStr, VBytes b => (exists p, SchemaM.parse_float b = Some p) /\ zlen b <= 255
   | FGw ipsec, VGw g a gw =>
       0 <= a <= 255 /\ (ipsec = false -> a = 0) /\
       match gw with
@@ -203,7 +205,7 @@ Lemma field_ok sty c f v ftext v' R q bl :
         (is_rest f = true -> (exists te, ungot st_end = Some te /\ is_eol_or_eof te = true) \/ exists q', st_end = stq q' R).
 Proof.
   intros (Hhs & Hbs & HO) Hv Hp He Hbl HR1 HR2.
-  destruct f as [maxv| |tokmax ctormax ne| | |sc| |v6| | | | | |k| |maxc| |en| | | | |bmax| | | |ipsec| | |]; destruct v as [z|b|n|l|ws|nl|g a gw]; cbn [val_ok] in Hv; try contradiction;
+  destruct f as [maxv| |tokmax ctormax ne| | |sc| |v6| | | | | |k| |maxc| |en| | | | |bmax| | | |ipsec| | | |]; destruct v as [z|b|n|l|ws|nl|g a gw]; cbn [val_ok] in Hv; try contradiction;
     cbn [print_field] in Hp; cbn [expect] in He; cbn [is_rest] in HR1, HR2.
   - (* FDec *)
     inversion Hp; subst ftext. inversion He; subst v'. specialize (HR1 eq_refl).
@@ -835,6 +837,19 @@ Proof.
       rewrite (get_string_word false [32] (b64encode s) R eq_refl Hs Hn0 HR1). cbn [bind fst snd].
       unfold b64decode_str. change (forallb (fun c => (0 <=? c) && (c <? 128)) (b64encode s)) with (all_ascii (b64encode s)).
       rewrite Ha. rewrite b64decode_b64encode by exact Hb. cbn [bind]. rewrite Z.eqb_refl. reflexivity.
+  - (* FGposStr *)
+    destruct Hv as ((p & Hpf) & Hl). inversion Hp; subst ftext. inversion He; subst v'. specialize (HR1 eq_refl).
+    destruct (float_string_word b p Hpf) as (Hs & Ha & Hne).
+    exists (mkTok tIDENT b (has_bs b) None), (stq false R).
+    split; [apply get0_word_q; auto using units_safe|]. split; [reflexivity|]. split.
+    { unfold tok_plain, is_identifier. cbn [ttype tvalue]. rewrite safe_word_not_hash by exact Hs. repeat split; reflexivity. }
+    split; [apply stq_len_word|].
+    intros stX HX _. exists (VBytes b), (stq false R).
+    split; [|split; [|split; [intros _; exists false; reflexivity|discriminate]]].
+    + cbn [parse_field]. unfold get_string, get_unescaped. rewrite HX. cbn [bind fst snd]. unfold unescape. cbn [tesc].
+      rewrite has_bs_safe by exact Hs. cbn [negb bind fst snd]. unfold as_string, is_identifier, is_quoted. cbn [ttype tvalue].
+      change (tIDENT =? tIDENT) with true. change (0 =? 0) with true. reflexivity.
+    + cbn [ctor_field]. rewrite utf8_ascii by exact Ha. cbn [bind]. replace (zlen b >? 255) with false by lia. reflexivity.
 Qed.
 
 (* ---------- the whole field list ---------- *)
